@@ -2,6 +2,7 @@ import CedarVerif.Lemmas.TpeViews
 import CedarVerif.Lemmas.TpeQuery
 import CedarVerif.Lemmas.TpeSound4
 import CedarVerif.Lemmas.TpeDecision
+import CedarVerif.Lemmas.TpeQuerySound
 /-
 C14 — type-aware partial evaluation and permission queries are sound.  Property theorems only
 (helpers: Lemmas/Tpe*.lean).  Model: Cedar/Tpe.lean (`Residual`, `interpret`, `Tpe.Response`, views, `reauthorize`, queries).
@@ -368,5 +369,37 @@ example :
     rw [this] at hv; cases hv; exact ⟨true, rfl⟩
   · intro _
     exact ⟨.prim (.bool true), by rfl⟩
+
+/-- **query_resource_exact / query_principal_exact**: `query_exact` with its soundness premise DISCHARGED by
+`tpe_decision_sound`: every candidate request completes the partial inputs of the query (`completes_ofConcrete`), so the
+queries return exactly the candidates the concrete authorizer allows — given, for each candidate request, type safety of
+the typed conditions and their agreement with the policy conditions. -/
+theorem query_resource_exact (tps : List TPolicy) (ctx : List (String × Value)) (es : Entities)
+    (principal action : EntityUID) (rty : EntityType) (us : List EntityUID)
+    (h : queryResource tps principal action rty ctx es = some us)
+    (hT : ∀ u, u ∈ candidates es rty → TypedSafe ⟨principal, action, u, ctx⟩ es tps)
+    (hE : ∀ u, u ∈ candidates es rty → TypedAgrees ⟨principal, action, u, ctx⟩ es tps) :
+    ∀ u, u ∈ us ↔ u ∈ candidates es rty ∧
+      (Cedar.isAuthorized ⟨principal, action, u, ctx⟩ es (tps.map (·.policy))).decision = .allow :=
+  (query_exact tps ctx es).1 principal action rty us h (fun resp hr d hd u hu =>
+    (tpe_decision_sound _ _ tps resp hr ⟨principal, action, u, ctx⟩ es
+      (completes_ofConcrete _ _ es (by intro x hx; simp only [PUid.uid?, Option.map_some, Option.some.injEq] at hx; rw [← hx])
+        (by intro x hx; simp [PUid.uid?] at hx) rfl (candidates_ty hu) rfl
+        (by intro c hc; simp only [Option.some.injEq] at hc; exact hc))
+      (hT u hu) (hE u hu)).2 d hd)
+
+theorem query_principal_exact (tps : List TPolicy) (ctx : List (String × Value)) (es : Entities)
+    (pty : EntityType) (action resource : EntityUID) (us : List EntityUID)
+    (h : queryPrincipal tps pty action resource ctx es = some us)
+    (hT : ∀ u, u ∈ candidates es pty → TypedSafe ⟨u, action, resource, ctx⟩ es tps)
+    (hE : ∀ u, u ∈ candidates es pty → TypedAgrees ⟨u, action, resource, ctx⟩ es tps) :
+    ∀ u, u ∈ us ↔ u ∈ candidates es pty ∧
+      (Cedar.isAuthorized ⟨u, action, resource, ctx⟩ es (tps.map (·.policy))).decision = .allow :=
+  (query_exact tps ctx es).2 pty action resource us h (fun resp hr d hd u hu =>
+    (tpe_decision_sound _ _ tps resp hr ⟨u, action, resource, ctx⟩ es
+      (completes_ofConcrete _ _ es (by intro x hx; simp [PUid.uid?] at hx)
+        (by intro x hx; simp only [PUid.uid?, Option.map_some, Option.some.injEq] at hx; rw [← hx])
+        (candidates_ty hu) rfl rfl (by intro c hc; simp only [Option.some.injEq] at hc; exact hc))
+      (hT u hu) (hE u hu)).2 d hd)
 
 end Cedar.C14
